@@ -5,9 +5,17 @@ from mc import core, det, domains
 PROPERTY = 'C17'
 ENGINE = 'E1 bounded-exhaustive enumeration of (identifier size, capacity, list length, block size) and of all compositions / widths / values in small boxes'
 LEVEL = 'model_checking'
+DIRECTED_ADDITIONS = 'XOR operands chosen by their result, one-byte operands exhaustively, mixed-length identifier lists, posting lists as tuple / generator / iterator, composed vs decomposed Unicode keywords'      # members added during the seeded-change campaign (DESIGN 7); counted under their own vacuity counters
+
 
 
 def describe(tier):
+    d = _describe(tier)
+    d['rule'] = d['rule'] + ' Directed additions: ' + DIRECTED_ADDITIONS + '.'
+    return d
+
+
+def _describe(tier):
     return {
         'rule': 'blocks: case = (identifier size, capacity, list length, block size); %s; block sizes {default, cap*size, +1, +size-1, 2*cap*size}; '
                 'identifiers are distinct, never all-zero, and include awkward members (leading zero bytes, trailing zero bytes, 0x00..01, 0x01 00..); '
